@@ -6,4 +6,10 @@ def run(tier, seed):
         "C04", ["C04.ok"], tier, seed,
         nontrivial=lambda c, e, o: c["has_mw"] and any(a[0] == "mw" for acts, _ in o for a in acts),
         rule="non-trivial = distinct schedule with a middleware chain that was actually consulted")
+    import tlsextra
+    tmp = scratch_dir("nv-c04-")
+    try:
+        tlsextra.fingerprint_plumbing_cases(res, tmp)
+    finally:
+        shutil.rmtree(tmp, ignore_errors=True)
     return res
